@@ -114,11 +114,18 @@ class World:
 class FakeNDB:
     def __init__(self, ifindex):
         self.kernel_neigh = {}
+        self.dump_hook = None
         outer = self
 
         class _Neigh:
             def dump(self):
-                return [{"dst": ip, "lladdr": mac} for ip, mac in outer.kernel_neigh.items()]
+                snap = [{"dst": ip, "lladdr": mac} for ip, mac in outer.kernel_neigh.items()]
+                h = outer.dump_hook
+                if h is not None:
+                    # the neighbour table was read; the kernel may change before the caller acts on what it read
+                    outer.dump_hook = None
+                    h()
+                return snap
 
         class _TM:
             def register_handler(self, *a):
@@ -230,6 +237,21 @@ def run_history(rc_mod, rng, nevents, check_every=1):
             ev = ("RTM_DELROUTE", key[0], key[1], key[2], gw)
             events.append(ev)
             ctl._netlink_route_handler(None, route_msg("RTM_DELROUTE", key[0], key[1], key[2], gw))
+        elif r < 0.74:
+            # the kernel announces a neighbour that is not resolved (NUD_INCOMPLETE / NUD_FAILED): no link-layer address
+            # in the message, and the neighbour table does not know a MAC either. Nothing may change. (pyroute2's event
+            # loop catches and logs what a handler raises; the harness does the same for this message.)
+            cands = [ip for ip in NEXT_HOPS[iface] if ip not in ndb.kernel_neigh]
+            if not cands:
+                continue
+            ip = rng.choice(cands)
+            ev = ("RTM_NEWNEIGH", ip, None)
+            events.append(ev)
+            try:
+                ctl._netlink_neighbor_handler(None, {"event": "RTM_NEWNEIGH", "attrs": [("NDA_DST", ip)], "state": 1})
+            except (KeyError, TypeError, AttributeError):
+                stats["handler_raised_on_incomplete_neighbour"] = stats.get("handler_raised_on_incomplete_neighbour", 0) + 1
+            stats["incomplete_neighbour_messages"] = stats.get("incomplete_neighbour_messages", 0) + 1
         else:
             ip = rng.choice(NEXT_HOPS[iface])
             mac = mac_of(ip)
@@ -248,6 +270,133 @@ def run_history(rc_mod, rng, nevents, check_every=1):
             if v:
                 return events, v, stats
     return events, None, stats
+
+
+def run_concurrent(rc_mod, rng, rounds):
+    """Two kernel events handled on two threads at once (the NDB event thread, and the main thread that re-reads the
+    routes on SIGHUP / at start-up). The window between "neighbour table read" and "route parked" is widened at the
+    harness-owned boundary: the stub's neighbours.dump() lets the other event happen right after the table was read.
+    The events of a pair touch different kernel objects, so the kernel state after the pair does not depend on their
+    order and the module graph must mirror it once both handlers have returned."""
+    import threading
+    world = World(list(IFACES))
+    FakeBESS.world = world
+    ndb = FakeNDB(IFACES)
+    ctl = rc_mod.RouteController(bess_controller=rc_mod.BessController("x", "1"), ndb=ndb, ipr=None, interfaces=list(IFACES))
+    kroutes = {}
+    events = []
+    stats = {"pairs": 0, "overlapped_pairs": 0, "second_event_ran_inside_the_window": 0}
+    for rnd in range(rounds):
+        iface = rng.choice(list(IFACES))
+        unresolved = [ip for ip in NEXT_HOPS[iface] if ip not in ndb.kernel_neigh]
+        cands = [(iface, p, l) for (p, l) in PREFIXES if (iface, p, l) not in kroutes]
+        if not unresolved or not cands:
+            # start over with an empty kernel: delete every route, forget the neighbours
+            for key in sorted(kroutes):
+                gw = kroutes.pop(key)
+                ctl._netlink_route_handler(None, route_msg("RTM_DELROUTE", key[0], key[1], key[2], gw))
+            ndb.kernel_neigh.clear()
+            v = check_graph(world, kroutes, ndb.kernel_neigh)
+            if v:
+                return events, v, stats
+            continue
+        gw = rng.choice(unresolved)
+        key = rng.choice(cands)
+        kind = rng.choice(["newroute|newneigh", "newroute|newneigh", "newroute|delroute-other", "bootstrap|newneigh"])
+        mac = mac_of(gw)
+        done2 = threading.Event()
+        inside = []
+
+        did = []
+
+        def second():
+            try:
+                if kind == "newroute|delroute-other":
+                    others = sorted(k for k in kroutes if k != key)
+                    if others:
+                        did.append(1)
+                        k2 = rng.choice(others)
+                        g2 = kroutes.pop(k2)
+                        ctl._netlink_route_handler(None, route_msg("RTM_DELROUTE", k2[0], k2[1], k2[2], g2))
+                else:
+                    did.append(1)
+                    ctl._netlink_neighbor_handler(None, neigh_msg(gw, mac))
+            finally:
+                done2.set()
+
+        t2 = threading.Thread(target=second, daemon=True)
+
+        def hook():
+            # the table has been read (MAC unknown); now the neighbour resolves / the other event arrives
+            if kind != "newroute|delroute-other":
+                ndb.kernel_neigh[gw] = mac
+            t2.start()
+            if done2.wait(0.003) and did:
+                inside.append(1)
+
+        ndb.dump_hook = hook
+        kroutes[key] = gw
+        events.append((kind, key[0], key[1], key[2], gw))
+        msg = route_msg("RTM_NEWROUTE", key[0], key[1], key[2], gw)
+        if kind == "bootstrap|newneigh":
+            # what SIGHUP / start-up does: the routes are read from the kernel and added one by one
+            ctl._ipr = types.SimpleNamespace(get_routes=lambda family=None: [route_msg("RTM_NEWROUTE", k[0], k[1], k[2], g) for k, g in sorted(kroutes.items()) if k == key])
+            ctl.bootstrap_routes()
+        else:
+            ctl._netlink_route_handler(None, msg)
+        if ndb.dump_hook is not None:
+            # the handler never read the table (cannot happen for an unresolved next hop): run the second event now
+            ndb.dump_hook = None
+            hook()
+        if not done2.wait(10):
+            return events, ("C20.R5", "handler-stuck", "the second handler of a concurrent pair did not return within 10 s"), stats
+        stats["pairs"] += 1
+        stats["overlapped_pairs"] += 1
+        if inside:
+            stats["second_event_ran_inside_the_window"] += 1
+        v = check_graph(world, kroutes, ndb.kernel_neigh)
+        if v:
+            return events, (v[0], v[1] + " (concurrent " + kind + ")", v[2] + " - after the two events " + kind + " were handled on two threads"), stats
+    return events, None, stats
+
+
+def run_flaps(rc_mod, rng, flaps):
+    """One next hop stays live while another one comes and goes more often than a lookup module has gates."""
+    world = World(list(IFACES))
+    FakeBESS.world = world
+    ndb = FakeNDB(IFACES)
+    ctl = rc_mod.RouteController(bess_controller=rc_mod.BessController("x", "1"), ndb=ndb, ipr=None, interfaces=list(IFACES))
+    iface = "access"
+    a, b, c = NEXT_HOPS[iface]
+    for ip in (a, b, c):
+        ndb.kernel_neigh[ip] = mac_of(ip)
+    kroutes = {}
+    stats = {"events": 0, "graph_checks": 0}
+
+    def new(key, gw):
+        kroutes[key] = gw
+        ctl._netlink_route_handler(None, route_msg("RTM_NEWROUTE", key[0], key[1], key[2], gw))
+        stats["events"] += 1
+
+    def rm(key):
+        gw = kroutes.pop(key)
+        ctl._netlink_route_handler(None, route_msg("RTM_DELROUTE", key[0], key[1], key[2], gw))
+        stats["events"] += 1
+
+    new((iface, "0.0.0.0", 0), a)
+    for i in range(flaps):
+        new((iface, "10.1.0.0", 16), b)
+        if True:
+            stats["graph_checks"] += 1
+            v = check_graph(world, kroutes, ndb.kernel_neigh)
+            if v:
+                return [("flap", i)], v, stats
+        rm((iface, "10.1.0.0", 16))
+    new((iface, "10.2.0.0", 16), c)
+    new((iface, "10.1.0.0", 16), b)
+    stats["graph_checks"] += 1
+    v = check_graph(world, kroutes, ndb.kernel_neigh)
+    return [("flaps", flaps)], v, stats
 
 
 def check_graph(world, kroutes, kneigh):
@@ -312,6 +461,8 @@ def run(pid, cfg, args, b, drv):
     m = {"evaluations": 0, "distinct": {}, "events": {}, "samples": [], "violations": [], "inconclusive": [],
          "assumptions": [
              "pyroute2, pybess and scapy are not installed: route_control.py is imported with stub modules; the recording BESS client raises BESS.Error with ENOENT/EEXIST/EBUSY like BESS does",
+             "a neighbour message without a link-layer address (unresolved neighbour) makes the handler of the unchanged tree raise KeyError; pyroute2's event loop catches what handlers raise, and so does the harness for this message only; the graph is compared afterwards as after every event",
+             "concurrent family: two events are handled on two threads; the stub's neighbours.dump() (harness-owned boundary) lets the second event happen right after the table was read, waiting at most 3 ms for it (on a tree that holds the controller lock across read and park it cannot finish inside the window - the evidence counts how often it did)",
              "histories are kernel-consistent (RTM_NEWROUTE only for absent routes - or repeated for a route that is still waiting for its next hop -, RTM_DELROUTE only for present ones, one MAC per next hop); time.sleep inside the module is patched out",
          ], "notes": [], "exhaustive": False}
     try:
@@ -321,6 +472,7 @@ def run(pid, cfg, args, b, drv):
         return 2
     nh = 20000 if args.tier == "quick" else 2000000
     ev_total = checks = 0
+    agg = {}
     for h in range(nh):
         rng = random.Random((args.seed << 32) ^ (h * 2654435761 & 0xFFFFFFFF))
         n = rng.choice([6, 10, 16, 24, 40])
@@ -334,6 +486,9 @@ def run(pid, cfg, args, b, drv):
         m["evaluations"] += 1
         ev_total += st["events"]
         checks += st["graph_checks"]
+        for k in ("incomplete_neighbour_messages", "handler_raised_on_incomplete_neighbour", "repeated_announcements", "pending_resolved"):
+            if k in st:
+                agg[k] = agg.get(k, 0) + st[k]
         sig = "%d/%s" % (len(events), ",".join(sorted({e[0][4:8] + ("0" if e[0] != "RTM_NEWNEIGH" and e[3] == 0 else "") for e in events})))
         kinds = tuple(e[0] for e in events[:8])
         m["distinct"][str(hash(kinds)) + sig] = 1
@@ -342,5 +497,42 @@ def run(pid, cfg, args, b, drv):
         if v:
             rule, shape, what = v
             m["violations"].append({"rule": rule, "shape": shape, "what": what, "case": h, "witness": {"events": events}})
+    extra = {}
+    # -- two events on two threads
+    nc = 150 if args.tier == "quick" else 6000
+    for h in range(nc):
+        rng = random.Random((args.seed << 32) ^ (0x51000000 + h))
+        try:
+            events, v, st = run_concurrent(rc, rng, 24)
+        except Exception as e:
+            import traceback
+            m["violations"].append({"rule": "C20.CRASH", "shape": type(e).__name__ + " (concurrent)", "what": "handler raised %r" % (e,), "case": 5000000 + h,
+                                    "witness": {"traceback": traceback.format_exc()[-3000:]}})
+            continue
+        m["evaluations"] += 1
+        for k, n in st.items():
+            extra["concurrent_" + k] = extra.get("concurrent_" + k, 0) + n
+        for e in events:
+            m["distinct"]["concurrent/" + e[0]] = 1
+        if v:
+            m["violations"].append({"rule": v[0], "shape": v[1], "what": v[2], "case": 5000000 + h, "witness": {"events": events}})
+    # -- more next-hop creations than a module has gates
+    for h, flaps in enumerate([8300] if args.tier == "quick" else [8300, 16500, 40000]):
+        rng = random.Random(args.seed + h)
+        try:
+            events, v, st = run_flaps(rc, rng, flaps)
+        except Exception as e:
+            import traceback
+            m["violations"].append({"rule": "C20.CRASH", "shape": type(e).__name__ + " (flaps)", "what": "handler raised %r" % (e,), "case": 6000000 + h,
+                                    "witness": {"traceback": traceback.format_exc()[-3000:]}})
+            continue
+        m["evaluations"] += 1
+        m["distinct"]["flaps/%d" % flaps] = 1
+        extra["flap_events"] = extra.get("flap_events", 0) + st["events"]
+        checks += st["graph_checks"]
+        if v:
+            m["violations"].append({"rule": v[0], "shape": v[1] + " (after %d next-hop creations)" % flaps, "what": v[2] + " - after one next hop came and went %d times while another stayed live" % flaps, "case": 6000000 + h, "witness": {"events": events}})
     m["events"] = {"netlink_events_delivered": ev_total, "graph_comparisons": checks, "histories": m["evaluations"]}
+    m["events"].update(extra)
+    m["events"].update(agg)
     return drv.finalize(pid, cfg, args, m, [], [], time.time() - t0)
